@@ -4,15 +4,20 @@ package props
 
 import (
 	"bytes"
+	"context"
 	"fmt"
 	"net"
+	"sync"
 	"time"
+
+	dht "github.com/anacrolix/dht/v2"
 
 	"pgregory.net/rapid"
 
 	"testing"
 	"verifharness/kit"
 	"verifharness/refmodel"
+	"verifharness/simnet"
 )
 
 type C08Cfg struct {
@@ -42,6 +47,9 @@ type C08Msg struct {
 	// the store refuses some of them (stale seq): the refusal must still be the only datagram
 	PutSeq int64
 	PutVal int
+	// SameT: when the message is injected, a query of this node to the message's source is outstanding,
+	// and the message carries that query's transaction ID instead of T.
+	SameT bool
 }
 
 type C08Sc struct {
@@ -123,6 +131,7 @@ func genC08(t *rapid.T) C08Sc {
 			m.RO = rapid.IntRange(0, 5).Draw(t, "ro") == 0
 			m.PutSeq = rapid.Int64Range(0, 3).Draw(t, "putseq")
 			m.PutVal = rapid.IntRange(0, len(c13Values)-1).Draw(t, "putval")
+			m.SameT = rapid.IntRange(0, 3).Draw(t, "samet") == 0
 			batch = append(batch, m)
 		}
 		sc.Batches = append(sc.Batches, batch)
@@ -221,7 +230,29 @@ func runC08(sc C08Sc, c *kit.Case) *kit.Violation {
 	}
 	c.Label("hook-" + sc.Cfg.Hook)
 	tokSeq := 0
+	// outbound queries of the node under test (SameT messages)
+	var obMu sync.Mutex
+	var obWait chan string
+	sv.C.DelayHook = func(int64, bool) time.Duration { return time.Hour } // an outstanding query stays outstanding
+	sv.C.BeforeWrite = func(to *net.UDPAddr, data []byte) {
+		obMu.Lock()
+		w := obWait
+		obMu.Unlock()
+		if w == nil {
+			return
+		}
+		if v, _, err := refmodel.Parse(data); err == nil {
+			if y, _ := v.Get("y"); y.S == "q" {
+				tv, _ := v.Get("t")
+				select {
+				case w <- tv.S:
+				default:
+				}
+			}
+		}
+	}
 	for bi, batch := range sc.Batches {
+		batch = append([]C08Msg(nil), batch...)
 		// Obtain genuine tokens first (one `get` per source IP that needs one). These exchanges are
 		// themselves queries and are judged like any other.
 		tokens := map[int]string{}
@@ -252,11 +283,65 @@ func runC08(sc C08Sc, c *kit.Case) *kit.Violation {
 				}
 			}
 		}
+		// start the outbound queries whose transaction IDs the SameT messages will carry
+		var obCancels []context.CancelFunc
+		obDone := make(chan dht.QueryResult, len(batch))
+		nOb := 0
+		finishOutbound := func() bool {
+			for _, cf := range obCancels {
+				cf()
+			}
+			for ; nOb > 0; nOb-- {
+				select {
+				case <-obDone:
+				case <-time.After(5 * time.Second):
+					c.Inconclusive = "a cancelled outbound query did not return within 5 s"
+					return false
+				}
+			}
+			return true
+		}
+		for i := range batch {
+			if !batch[i].SameT {
+				continue
+			}
+			w := make(chan string, 1)
+			obMu.Lock()
+			obWait = w
+			obMu.Unlock()
+			ctx, cancel := context.WithCancel(context.Background())
+			obCancels = append(obCancels, cancel)
+			dest := batch[i].Src.UDP()
+			nOb++
+			simnet.Go(func() {
+				obDone <- sv.S.Query(ctx, dht.NewAddr(dest), "ping", dht.QueryInput{})
+			})
+			select {
+			case tt := <-w:
+				batch[i].T = kit.Hex(tt)
+				c.Label("same-t-as-outstanding-" + batch[i].Kind)
+			case <-time.After(10 * time.Second):
+				obMu.Lock()
+				obWait = nil
+				obMu.Unlock()
+				finishOutbound()
+				c.Inconclusive = "outbound query datagram did not reach the socket within 10 s"
+				return nil
+			}
+			obMu.Lock()
+			obWait = nil
+			obMu.Unlock()
+		}
+		if nOb > 0 && !sv.barrier(c) {
+			finishOutbound()
+			return nil
+		}
 		mark := sv.C.NumOut()
 		for i, m := range batch {
 			sv.C.Inject(m.Src.UDP(), m.build(tokens[i]))
 		}
 		if !sv.barrier(c) {
+			finishOutbound()
 			return nil
 		}
 		judge := func() *kit.Violation {
@@ -411,10 +496,18 @@ func runC08(sc C08Sc, c *kit.Case) *kit.Violation {
 			waitFor(2*time.Second, func() bool { return judge() == nil })
 			v = judge()
 		}
+		obOK := finishOutbound()
 		if v != nil {
+			c.Inconclusive = ""
 			return v
 		}
+		if !obOK {
+			return nil
+		}
 		for _, m := range batch {
+			if m.SameT {
+				c.NonTrivial()
+			}
 			c.Label("kind-" + m.Kind)
 			if m.Kind == "query" {
 				c.Label("method-" + m.Method)
